@@ -143,6 +143,27 @@ impl Prop for C02 {
             }
             out.push(("random-trees", s));
         }
+        // (b') the same over multi-byte / wide / zero-width characters (strings, sets, ranges)
+        let mut pu = ReParams::basic(&['a', 'é', 'λ', '→', '京', '💝', '\u{301}', 'z']);
+        pu.size = 10;
+        pu.w_str = 8;
+        pu.w_set = 5;
+        let ustrat = gen::re_strategy(&pu);
+        for i in 0..tier.pick(250, 2500) {
+            let t = gen::fix_nullable(sample(&ustrat, r), 'a');
+            out.push(("unicode-trees", simple_spec(vec![(t.clone(), None)], i % 2 == 0, vec![])));
+            // a string and the concatenation of its characters, with non-ASCII characters
+            if i % 5 == 0 {
+                let w: String = ['λ', '.', '→', 'é', '京'].iter().cycle().skip(i % 5).take(2 + i % 3).collect();
+                let mut chars = w.chars();
+                let mut c = Re::Char(chars.next().unwrap());
+                for ch in chars {
+                    c = cat(c, Re::Char(ch));
+                }
+                out.push(("equivalent-forms", simple_spec(vec![(cat(Re::Str(w.clone()), opt(t.clone())), None)], false, vec![])));
+                out.push(("equivalent-forms", simple_spec(vec![(cat(c, opt(t)), None)], false, vec![])));
+            }
+        }
         // (c) metamorphic pairs inside a 3-rule context
         let mut q = ReParams::basic(&ABC);
         q.size = 5;
@@ -255,9 +276,32 @@ pub enum Shape {
     Loop,
     /// `'!' > CLASS = 0, _ = 1`: the class inside a right-context function
     Ctx,
+    /// `CLASS+ = 0, 'm1' '!' = 1, 'm2' '!' = 2, …, _ = k`: literal characters that are members of
+    /// the class (end points of its pieces) leave the same state as the class's ranges
+    WithLiterals,
 }
 
-pub const SHAPES: [Shape; 4] = [Shape::AcceptArms, Shape::Alone, Shape::Loop, Shape::Ctx];
+pub const SHAPES: [Shape; 5] = [Shape::AcceptArms, Shape::Alone, Shape::Loop, Shape::Ctx, Shape::WithLiterals];
+
+/// Members of the class that sit at piece boundaries with at least two pieces before them where
+/// possible (they become character literals of competing rules).
+fn literal_members(cls: &Cls) -> Vec<char> {
+    let n = cls.0.len();
+    let mut v = vec![];
+    let mut idx = vec![n.saturating_sub(1), n / 2, 2.min(n.saturating_sub(1)), 0];
+    idx.dedup();
+    for (k, i) in idx.into_iter().enumerate() {
+        if let Some(&(a, b)) = cls.0.get(i) {
+            let x = if k % 2 == 0 { b } else { a };
+            if let Some(c) = char::from_u32(x) {
+                if !v.contains(&c) && c != '!' {
+                    v.push(c);
+                }
+            }
+        }
+    }
+    v
+}
 
 pub fn class_spec(class: Re, shape: Shape, lets: Vec<(String, Re)>) -> Spec {
     match shape {
@@ -265,6 +309,19 @@ pub fn class_spec(class: Re, shape: Shape, lets: Vec<(String, Re)>) -> Spec {
         Shape::Alone => simple_spec(vec![(class, None)], false, lets),
         Shape::Loop => simple_spec(vec![(plus(class), None), (Re::Any, None)], false, lets),
         Shape::Ctx => simple_spec(vec![(Re::Char('!'), Some(class)), (Re::Any, None)], false, lets),
+        Shape::WithLiterals => {
+            let members = class
+                .expand(&lets.iter().cloned().collect())
+                .and_then(|c| c.class())
+                .map(|c| literal_members(&c))
+                .unwrap_or_default();
+            let mut rules = vec![(plus(class), None)];
+            for m in members {
+                rules.push((cat(Re::Char(m), Re::Char('!')), None));
+            }
+            rules.push((Re::Any, None));
+            simple_spec(rules, false, lets)
+        }
     }
 }
 
@@ -407,7 +464,7 @@ impl Prop for C11b {
             if c.class().map(|k| k.is_empty()).unwrap_or(true) {
                 continue;
             }
-            let shape = SHAPES[i % 4];
+            let shape = SHAPES[i % 5];
             let mut lets = vec![];
             let class = if i % 7 == 3 {
                 // through a variable bound to a class
@@ -483,6 +540,8 @@ pub fn shape_of(spec: &Spec) -> Shape {
     let rules = spec.rules();
     if rules[0].ctx.is_some() {
         Shape::Ctx
+    } else if matches!(rules[0].re, Re::Plus(_)) && rules.len() > 2 {
+        Shape::WithLiterals
     } else if matches!(rules[0].re, Re::Plus(_)) {
         Shape::Loop
     } else if rules.len() == 1 {
@@ -625,6 +684,7 @@ impl Prop for C13 {
             for shape in SHAPES {
                 out.push(("builtin-alone", class_spec(Re::Builtin(name.into()), shape, vec![])));
             }
+            // literal members must avoid recorded drift (their membership is a don't-care)
             let n_ranges = builtin_cls(name).map(|c| c.0.len()).unwrap_or(0);
             if n_ranges <= 9 {
                 out.push(("builtin-table-shape", class_spec(pua_union(name), Shape::Loop, vec![])));
